@@ -222,15 +222,17 @@ func init() {
 		return []Term{e}
 	}}
 	// wrap(err, ...): nil iff err nil, same root
-	wrapAt := func(ix int) model { return model{pure: false, fn: func(fv *FuncVerifier, call *ast.CallExpr, args []Term, st *State) []Term {
-		in := args[ix]
-		if in.Sort == nil {
-			reject("error wrapper with unmodelled argument")
-		}
-		e := fv.u.freshConst("werr", &Sort{Name: "Int", Kind: KErr})
-		st.assume(mk(sortBool, "(and (= (= %s 0) (= %s 0)) (>= %s 0) (= (err_root %s) (err_root %s)))", e.S, in.S, e.S, e.S, in.S))
-		return []Term{e}
-	}} }
+	wrapAt := func(ix int) model {
+		return model{pure: false, fn: func(fv *FuncVerifier, call *ast.CallExpr, args []Term, st *State) []Term {
+			in := args[ix]
+			if in.Sort == nil {
+				reject("error wrapper with unmodelled argument")
+			}
+			e := fv.u.freshConst("werr", &Sort{Name: "Int", Kind: KErr})
+			st.assume(mk(sortBool, "(and (= (= %s 0) (= %s 0)) (>= %s 0) (= (err_root %s) (err_root %s)))", e.S, in.S, e.S, e.S, in.S))
+			return []Term{e}
+		}}
+	}
 	wrapErr := wrapAt(0)
 	isErr := model{pure: true, fn: func(fv *FuncVerifier, call *ast.CallExpr, args []Term, st *State) []Term {
 		return []Term{errIs(args[0], args[1])}
@@ -239,19 +241,19 @@ func init() {
 		return []Term{args[0]}
 	}}
 	builtinModels = map[string]model{
-		"slices.Contains":                        contains,
-		"github.com/samber/lo.Contains":          contains,
-		"slices.Clone":                           clone,
-		"errors.New":                             newErr,
-		"fmt.Errorf":                             newErr,
-		"github.com/synnaxlabs/x/errors.New":     newErr,
-		"github.com/synnaxlabs/x/errors.Newf":    newErr,
-		"github.com/cockroachdb/errors.New":      newErr,
-		"github.com/cockroachdb/errors.Newf":     newErr,
-		"github.com/synnaxlabs/x/errors.Wrap":    wrapErr,
-		"github.com/synnaxlabs/x/errors.Wrapf":   wrapErr,
-		"github.com/synnaxlabs/x/errors.WithStack": wrapErr,
-		"github.com/synnaxlabs/alamos.Span.Error":  wrapAt(1),
+		"slices.Contains":                           contains,
+		"github.com/samber/lo.Contains":             contains,
+		"slices.Clone":                              clone,
+		"errors.New":                                newErr,
+		"fmt.Errorf":                                newErr,
+		"github.com/synnaxlabs/x/errors.New":        newErr,
+		"github.com/synnaxlabs/x/errors.Newf":       newErr,
+		"github.com/cockroachdb/errors.New":         newErr,
+		"github.com/cockroachdb/errors.Newf":        newErr,
+		"github.com/synnaxlabs/x/errors.Wrap":       wrapErr,
+		"github.com/synnaxlabs/x/errors.Wrapf":      wrapErr,
+		"github.com/synnaxlabs/x/errors.WithStack":  wrapErr,
+		"github.com/synnaxlabs/alamos.Span.Error":   wrapAt(1),
 		"github.com/synnaxlabs/alamos.Span.EndWith": wrapAt(1),
 		"github.com/synnaxlabs/x/errors.Combine": {pure: false, fn: func(fv *FuncVerifier, call *ast.CallExpr, args []Term, st *State) []Term {
 			a, b := args[0], args[1]
@@ -259,9 +261,9 @@ func init() {
 			st.assume(mk(sortBool, "(and (>= %s 0) (= (= %s 0) (and (= %s 0) (= %s 0))) (= (err_root %s) (ite (= %s 0) (err_root %s) (err_root %s))))", e.S, e.S, a.S, b.S, e.S, a.S, b.S, a.S))
 			return []Term{e}
 		}},
-		"errors.Is":                              isErr,
-		"github.com/synnaxlabs/x/errors.Is":      isErr,
-		"github.com/synnaxlabs/x/errors.Skip":    isErr,
+		"errors.Is":                           isErr,
+		"github.com/synnaxlabs/x/errors.Is":   isErr,
+		"github.com/synnaxlabs/x/errors.Skip": isErr,
 		"slices.Insert": {pure: false, fn: func(fv *FuncVerifier, call *ast.CallExpr, args []Term, st *State) []Term {
 			if len(args) != 3 || call.Ellipsis.IsValid() {
 				reject("slices.Insert with other than one inserted value")
